@@ -147,7 +147,10 @@ def ref_invert(p, us):
     """independent statement of the inversion: the outcome whose cumulative interval [c_{i-1}, c_i) contains u"""
     cs = np.cumsum(p)
     idx = np.searchsorted(cs, us, side="right")
-    return np.minimum(idx, len(p) - 1)
+    # u at or beyond the last running sum (rounding, sub-normalised vector): the last outcome that can occur
+    pos = np.flatnonzero(np.asarray(p) > 0)
+    last = int(pos[-1]) if len(pos) else len(p) - 1
+    return np.where(idx >= len(p), last, idx)
 
 
 def num_sum_lists(g, L):
@@ -219,7 +222,7 @@ def correspondence(ctx):
         cums = float_cums(p)
         for u in uniforms_for(kind, p, g, 6, exact_boundaries=True):
             got = int(dg._random_number_to_data(p, np.float64(u)))
-            pend.append(("r2dcs", (p.tolist(), u), got, drv.ask("r2dcs", len(p), qlist(cums), q(u))))
+            pend.append(("r2dcs", (p.tolist(), u), got, drv.ask("r2dcs", qlist(p), qlist(cums), q(u))))
             ctx.case(("r2dcs", tuple(p), u), nontrivial=True)
     got = int(dg._random_number_to_data(np.array([]), np.float64(0.3)))
     pend.append(("r2d", ([], 0.3), got, drv.ask("r2d", "-", q(0.3))))
@@ -644,8 +647,9 @@ def experiment_boundary(ctx, seeds):
 def oracle(ctx, volume=1):
     ctx.notes = ["that MT19937 / scipy.stats.multinomial sample the stated distribution is trusted; the 7-sigma frequency check in the oracle is a test, not a proof",
                  "float rounding of the running cumulative sum: the exact-rational theorems (r2d_interval, r2d_pos, data_valid) do not transfer to floats; "
-                 "r2d_hit_nonzero_any_add does (any addition with add c 0 = c): only the fall-through can return a zero-probability outcome, and it does on "
-                 "the real code (open finding D19: p=[0.1]*10+[0.0], u=nextafter(1,0)); the correspondence runs the loop on the implementation's float running "
+                 "r2d_pos_any_add / data_valid do (any addition with add c 0 = c; hit => positive entry, fall-through => last positive entry). "
+                 "Former defect D19 (zero-probability outcome after a rounding fall-through, p=[0.1]*10+[0.0], u=nextafter(1,0)) was repaired in 007afc6; "
+                 "its oracle signatures (.../zero-probability-outcome/fall-through) stay live; the correspondence runs the loop on the implementation's float running "
                  "sums for every vector (op r2dcs, boundaries exact) and the exact model on dyadic vectors",
                  "multinomial path: genEmpiSeq_valid holds under the trusted contract MultiOK of scipy's multinomial.rvs; no cumulative consistency there; the "
                  "tomography layer is skeleton-matched + reference-stream oracle only",
